@@ -263,7 +263,7 @@ def gen_case(rng, nops, version):
     while len(ops) < nops:
         holes = sorted(led.holes)
         kind = rng.weighted([("add_data", 26), ("set_values", 22), ("set_depth", 5), ("set_surveys", 6), ("add_hole", 8),
-                             ("remove_data", 12), ("remove_pg", 4), ("remove_hole", 5), ("rename", 3), ("reopen", 7),
+                             ("remove_data", 12), ("remove_pg", 4), ("remove_hole", 5), ("rename", 4), ("reopen", 7),
                              ("add_pg", 2)])
         if kind == "add_hole" or not holes:
             if len(led.holes) < max_holes:
@@ -314,7 +314,7 @@ def gen_case(rng, nops, version):
             if deps:
                 d = rng.choice(deps)
                 pgname = led.pgs[led.data[d]["pg"]]["name"]
-                n = rng.choice(LENS)
+                n = len(led.data[d]["vals"]) + rng.choice([0, 1, 1, 2, 3])   # growing only: see notes/C04.md
                 emit({"op": "set_values", "h": h, "d": d, "vals": [1000 * (pgname + 1) + 100 + i for i in range(n)]})
         elif kind == "set_surveys":
             emit({"op": "set_surveys", "h": h, "surv": list(range(rng.range(1, 5)))})
@@ -324,11 +324,29 @@ def gen_case(rng, nops, version):
             emit({"op": "remove_pg", "h": h, "pg": rng.choice(led.holes[h]["pgs"]), "ws": rng.chance(40)})
         elif kind == "remove_hole" and len(holes) > 1:
             emit({"op": "remove_hole", "h": h, "ws": rng.chance(50)})
-        elif kind == "rename" and datas:
+        elif kind == "rename" and datas and len(ops) * 10 >= nops * 6:
+            # a renamed data set degenerates quickly (known findings): at most three follow-up operations, then the case ends
             d = rng.choice(datas)
-            new = 4 + rng.below(4)
-            if 100 + new not in led.names(h) and all(led.renamed.get(x) != 100 + new for x in led.hole_data(h)):
-                emit({"op": "rename", "h": h, "d": d, "new": new})
+            old = led.data[d]["name"] - 100
+            emit({"op": "rename", "h": h, "d": d, "new": 4 + rng.below(4)})
+            reopened = False
+            for _ in range(rng.range(0, 3)):
+                f = rng.weighted([("set", 30), ("reopen", 25), ("remove", 25), ("readd", 20)])
+                if f == "set":
+                    n = len(led.data[d]["vals"])
+                    emit({"op": "set_values", "h": h, "d": d, "vals": _vals(rng, n, 50)})
+                elif f == "reopen" and not reopened:
+                    reopened = True
+                    emit({"op": "reopen"})
+                elif f == "remove":
+                    emit({"op": "remove_data", "h": h, "d": d, "ws": rng.chance(30)})
+                    break
+                elif f == "readd":
+                    pgn = led.pgs[led.data[d]["pg"]]["name"]
+                    emit({"op": "add_data", "h": h, "pg": pgn, "name": old, "pgid": fresh(), "depid": fresh(), "did": fresh(),
+                          "depth": None, "vals": []})
+                    break
+            return {"version": version, "ops": ops}
         elif kind == "add_pg":
             emit({"op": "add_pg", "h": h, "pg": rng.below(3), "pgid": fresh()})
         elif kind == "reopen":
